@@ -216,6 +216,7 @@ func fxs() []int     { return gxs }
 func fbs() []byte    { return gbs }
 func ff() float64    { return gf }
 func f2() (int, int) { return gi, gj }
+func fba(b bool) bool { return b }
 `
 
 var pools = map[string][]string{
